@@ -40,7 +40,8 @@ func checkC14(c *Ctx) {
 	c.c14Determinism()
 	// "exactly the exporter's entries": every Dump writes and every Restore reads the same stream — one gob record per entry and
 	// nothing else — so that any backend can import from any other (C13 R13.2)
-	c.borrowKinds("C13", func() { checkC13(c) }, "R14.2", "Dump/Restore:one-wire-format", []string{"R13.2", "R13.3"}, "dump-re-encodes", "dump-count", "wire-format", "dump-skips-entry")
+	c.borrowKinds("C13", func() { checkC13(c) }, "R14.2", "Dump/Restore:one-wire-format", []string{"R13.2", "R13.3"}, "dump-re-encodes", "dump-count", "wire-format", "dump-skips-entry",
+		"decoded-record-dropped", "restore-count", "decode-error-swallowed", "eof-returned-as-error")
 	c.rangeVarCapturedByGo("R14.2", func(name string) bool { return strings.HasPrefix(name, "HTTPTransfer.") })
 }
 
@@ -477,7 +478,14 @@ func (c *Ctx) c14Register() {
 		return
 	}
 	nNew, nKnown := 0, 0
+	earlyExit := false
 	for _, p := range paths {
+		for _, ev := range p.Events {
+			if ev.Kind == pw.EvLoopEnd && ev.Note == "break" && !earlyExit {
+				earlyExit = true
+				r.Bad("R14.3", "GobRegister", "registration-stops-early", c.Pos(ev.Pos), "GobRegister breaks out of the loop over its values", shortTrace(p))
+			}
+		}
 		loopStart := map[*iterGroup]int{}
 		idx := map[*pw.Event]int{}
 		for i, ev := range p.Events {
@@ -486,6 +494,12 @@ func (c *Ctx) c14Register() {
 		for _, g := range iterations(p) {
 			if !g.inner {
 				continue
+			}
+			// every value given is processed: the loop over the values is not left early (a `return` for an already registered
+			// type would silently skip the values after it)
+			if g.open && !earlyExit {
+				earlyExit = true
+				r.Bad("R14.3", "GobRegister", "registration-stops-early", c.Pos(g.begin.Pos), "GobRegister returns from inside the loop over its values: the values after that one are neither fingerprinted nor registered with gob", shortTrace(p))
 			}
 			loopStart[g] = idx[g.begin]
 			var look *pw.Event
